@@ -38,9 +38,12 @@ func DecodeCompositeExtractStrategyHookFunc() mapstructure.DecodeHookFunc {
 			return data, nil
 		}
 
-		// nolint: forcetypeassert
-		// already checked above
-		array := data.([]any)
+		array, ok := data.([]any)
+		if !ok {
+			return nil, errorchain.NewWithMessagef(heimdall.ErrConfiguration,
+				"unexpected authentication config type %T", data)
+		}
+
 		strategies = make(CompositeExtractStrategy, len(array))
 
 		for idx, entry := range array {
@@ -48,20 +51,27 @@ func DecodeCompositeExtractStrategyHookFunc() mapstructure.DecodeHookFunc {
 
 			if values, ok := entry.(map[string]any); ok {
 				for k, v := range values {
-					// nolint: forcetypeassert
-					// ok if panics
-					typed[k] = v.(string)
+					if typed[k], ok = v.(string); !ok {
+						return nil, errorchain.NewWithMessagef(heimdall.ErrConfiguration,
+							"unexpected type %T for the value of '%s' in authentication config", v, k)
+					}
 				}
 			} else if values, ok := entry.(map[any]any); ok {
 				for k, v := range values {
-					// nolint: forcetypeassert
-					// ok if panics
-					typed[k.(string)] = v.(string)
+					key, keyOK := k.(string)
+					val, valOK := v.(string)
+
+					if !keyOK || !valOK {
+						return nil, errorchain.NewWithMessagef(heimdall.ErrConfiguration,
+							"unexpected type %T for the key, respectively %T for the value in authentication config", k, v)
+					}
+
+					typed[key] = val
 				}
 			} else {
 				return nil, errorchain.
 					NewWithMessagef(heimdall.ErrInternal,
-						"unexpected authentication config type %s", reflect.TypeOf(entry).String())
+						"unexpected authentication config type %T", entry)
 			}
 
 			strategy, err := createStrategy(typed)
